@@ -159,6 +159,8 @@ type Spec struct {
 	RtMaxNodes     uint16 `json:"rt_max_nodes"`
 	RtMinPoolExtra uint16 `json:"rt_min_pool_extra"`
 	RtValidatorSet bool   `json:"rt_validator_set"`
+	// RtValidatorSetRole: which role the validator-set constraint applies to (0 = both, 1 = workers only, 2 = backup workers only).
+	RtValidatorSetRole int `json:"rt_validator_set_role"`
 	RtOwnStake     bool   `json:"rt_own_stake"`
 	// VRF: the VRF beacon backend (nodes submit proofs, committee elections need a high-quality alpha: at least
 	// VRFThreshold proofs in the previous epoch); false = the insecure backend.
@@ -602,8 +604,8 @@ func BuildGenesis(spec *Spec) (*World, error) {
 			AdmissionPolicy: registry.RuntimeAdmissionPolicy{AnyNode: &registry.AnyNodeRuntimeAdmissionPolicy{}},
 			Constraints: map[scheduler.CommitteeKind]map[scheduler.Role]registry.SchedulingConstraints{
 				scheduler.KindComputeExecutor: {
-					scheduler.RoleWorker:       constraints(spec, spec.RtGroup),
-					scheduler.RoleBackupWorker: constraints(spec, spec.RtBackup),
+					scheduler.RoleWorker:       constraints(spec, spec.RtGroup, 1),
+					scheduler.RoleBackupWorker: constraints(spec, spec.RtBackup, 2),
 				},
 			},
 			GovernanceModel: registry.GovernanceEntity,
@@ -672,12 +674,12 @@ func rtDeployments(spec *Spec) []*registry.VersionInfo {
 	return []*registry.VersionInfo{old, nu}
 }
 
-func constraints(spec *Spec, group uint16) registry.SchedulingConstraints {
+func constraints(spec *Spec, group uint16, role int) registry.SchedulingConstraints {
 	c := registry.SchedulingConstraints{MinPoolSize: &registry.MinPoolSizeConstraint{Limit: group + spec.RtMinPoolExtra}}
 	if spec.RtMaxNodes > 0 {
 		c.MaxNodes = &registry.MaxNodesConstraint{Limit: spec.RtMaxNodes}
 	}
-	if spec.RtValidatorSet {
+	if spec.RtValidatorSet && (spec.RtValidatorSetRole == 0 || spec.RtValidatorSetRole == role) {
 		c.ValidatorSet = &registry.ValidatorSetConstraint{}
 	}
 	return c
